@@ -273,6 +273,12 @@ macro_rules! fmt_path {
                 let ve = p.to_vec_edges().iter().map(|e| fmt_edge(e)).collect::<Vec<_>>().join("");
                 let ni = p.iter_nodes().count();
                 s.push_str(&format!(" acc {} {} {} {} {} {} {}", fe, le, f_n, l_n, i0, ve, ni));
+                // the PUBLIC field `edges` and indexing at every position are the same sequence the accessors report
+                let field = p.edges.iter().map(|e| fmt_edge(e)).collect::<Vec<_>>().join("");
+                let indexed = (0..p.edges.len()).map(|i| fmt_edge(&p[i])).collect::<Vec<_>>().join("");
+                if field != ve || indexed != ve {
+                    s.push_str(" PATH.EDGES-OR-INDEXING-DIFFERS-FROM-TO_VEC_EDGES");
+                }
                 s
             }
         }
@@ -296,9 +302,11 @@ fn fmt_edges(v: Vec<Ed>) -> String {
 }
 
 macro_rules! with_method {
-    ($b:expr, $meth:expr, $ff:expr, $fe:expr) => {{
+    ($b:expr, $meth:expr, $ff:expr, $fe:expr, $nf:expr, $ne:expr, $variant:expr) => {{
         let b = $b;
         match $meth {
+            Meth::Filter if $variant % 2 == 1 => b.for_each($ne).filter($ff),
+            Meth::Each if $variant % 2 == 1 => b.filter($nf).for_each($fe),
             Meth::Filter => b.filter($ff),
             Meth::Each => b.for_each($fe),
             Meth::None => b,
@@ -837,6 +845,20 @@ macro_rules! consume_edges {
                     }
                 }
             }
+            // INTERNAL iteration (Iterator::for_each / fold / sum): the loop body runs inside the iterator's own method,
+            // which must not hold a borrow / guard across it either
+            8 => {
+                it.for_each(|e| {
+                    $cbs.on_edge(&e);
+                });
+            }
+            9 => {
+                if let Some(e) = it.next() {
+                    $cbs.on_edge(&e);
+                    let n: usize = it.map(|e| { $cbs.on_edge(&e); 1usize }).sum();
+                    let _ = n;
+                }
+            }
             _ => loop {
                 match it.next() {
                     Some(e) => {
@@ -859,7 +881,7 @@ fn run_loop(w: &World, st: &[String]) -> String {
     let cbs = CbState::new(w, Pred::All);
     let nth = w.loops.get();
     w.loops.set(nth + 1);
-    let variant = (st.iter().map(|t| t.bytes().map(|b| b as usize).sum::<usize>()).sum::<usize>() + nth) % 8;
+    let variant = (st.iter().map(|t| t.bytes().map(|b| b as usize).sum::<usize>()).sum::<usize>() + nth) % 10;
     match st[1].as_str() {
         "adj" => {
             consume_edges!(u.iter(), cbs, variant);
@@ -895,6 +917,12 @@ fn run_search(w: &World, st: &[String]) -> String {
     let mut fe = |e: &Ed| {
         cbs.on_edge(e);
     };
+    // closures that are set and then REPLACED by the step's own method (filter and for_each share one slot: the later call wins)
+    let mut nf = |_e: &Ed| false;
+    let mut ne = |_e: &Ed| {};
+    // the builder calls are made in an order chosen per step (a pure function of the step text)
+    let variant: u32 = st.iter().map(|t| t.bytes().map(|b| b as u32).sum::<u32>()).sum::<u32>() % 4;
+    let wrong_key: Kt = Kt::of(999_983);
     macro_rules! terminal {
         ($b:expr, $kind:tt) => {{
             let mut b = $b;
@@ -946,6 +974,10 @@ fn run_search(w: &World, st: &[String]) -> String {
                     } else { r }
                 }};
             }
+            if meth == Meth::None && then_op.is_none() && variant >= 2 && what != "path" {
+                // another terminal method first, on the same object, its result discarded
+                let _ = b.search_path();
+            }
             match what {
                 "find" => find_arm!($kind),
                 "path" => again!(fmt_path!(b.search_path()), fmt_path!(b.search_path())),
@@ -954,9 +986,6 @@ fn run_search(w: &World, st: &[String]) -> String {
             }
         }};
     }
-    // the builder calls are made in an order chosen per step (a pure function of the step text)
-    let variant: u32 = st.iter().map(|t| t.bytes().map(|b| b as u32).sum::<u32>()).sum::<u32>() % 4;
-    let wrong_key: Kt = Kt::of(999_983);
     macro_rules! prio_none { ($b:expr) => { $b }; }
     macro_rules! prio_min { ($b:expr) => { $b.min() }; }
     macro_rules! prio_max { ($b:expr) => { $b.max() }; }
@@ -973,14 +1002,14 @@ fn run_search(w: &World, st: &[String]) -> String {
                     if let Some(ref t) = target {
                         b = b.target(t);
                     }
-                    let mut b = with_method!(b, meth, &mut ff, &mut fe);
+                    let mut b = with_method!(b, meth, &mut ff, &mut fe, &mut nf, &mut ne, variant);
                     if variant == 3 {
                         b = $pr!(b);
                     }
                     terminal!(b, $kind)
                 }
                 1 => {
-                    let mut b = with_method!(b, meth, &mut ff, &mut fe);
+                    let mut b = with_method!(b, meth, &mut ff, &mut fe, &mut nf, &mut ne, variant);
                     if let Some(ref t) = target {
                         b = b.target(t);
                     }
@@ -992,21 +1021,39 @@ fn run_search(w: &World, st: &[String]) -> String {
                         b = b.target(&wrong_key).target(t);
                     }
                     b = $pr!(b);
-                    let b = with_method!(b, meth, &mut ff, &mut fe);
+                    let b = with_method!(b, meth, &mut ff, &mut fe, &mut nf, &mut ne, variant);
                     terminal!(b, $kind)
                 }
             }
         }};
     }
+    // pre() / post() called AFTER the closure was set must not drop it
+    macro_rules! ord_after {
+        ($b:expr, none) => { $b };
+        ($b:expr, pre) => { $b.pre() };
+        ($b:expr, post) => { $b.post() };
+    }
     macro_rules! ord {
-        ($b:expr) => {{
+        ($b:expr) => { ord!($b, none) };
+        ($b:expr, $after:tt) => {{
             let b = $b;
-            let mut b = with_method!(b, meth, &mut ff, &mut fe);
+            let b = with_method!(b, meth, &mut ff, &mut fe, &mut nf, &mut ne, variant);
+            let mut b = ord_after!(b, $after);
             macro_rules! once {
                 () => {
                     match what {
-                        "nodes" => fmt_nodes(b.search_nodes()),
-                        "edges" => fmt_edges(b.search_edges()),
+                        "nodes" => {
+                            if meth == Meth::None && variant >= 2 {
+                                let _ = b.search_edges();   // the other terminal first, on the same object
+                            }
+                            fmt_nodes(b.search_nodes())
+                        }
+                        "edges" => {
+                            if meth == Meth::None && variant >= 2 {
+                                let _ = b.search_nodes();
+                            }
+                            fmt_edges(b.search_edges())
+                        }
                         _ => "bad-what".to_string(),
                     }
                 };
@@ -1042,8 +1089,26 @@ fn run_search(w: &World, st: &[String]) -> String {
             1 => cfg3!(root.pfs(), prio_minmax, pfs),
             _ => cfg3!(root.pfs(), prio_max, pfs),
         },
-        "pre" => ord!(root.order().pre()),
-        "post" => ord!(root.order().post()),
+        "pre" => {
+            if variant == 3 {
+                ord!(root.order().post(), pre) // the ordering chosen after the closure was set
+            } else if variant == 1 {
+                ord!(root.order()) // the default ordering of order() is preorder
+            } else if variant == 2 {
+                ord!(root.order().post().pre()) // the later setter wins
+            } else {
+                ord!(root.order().pre())
+            }
+        }
+        "post" => {
+            if variant == 3 {
+                ord!(root.order(), post)
+            } else if variant == 2 {
+                ord!(root.order().pre().post())
+            } else {
+                ord!(root.order().post())
+            }
+        }
         _ => "bad-algo".to_string(),
     };
     format!("{}{}", res, cbs.tail(meth != Meth::None))
